@@ -11,14 +11,15 @@ import (
 // zzConn is the scripted transport of client-side harnesses: reads deliver what a
 // peer goroutine feeds (or the injected error), writes are logged (or fail).
 type zzConn struct {
-	in        chan *goatorepo.Rpc
-	rerr      chan error
-	mu        vfMutex
-	out       []*goatorepo.Rpc
-	failWrite error
-	onWrite   func(*goatorepo.Rpc)
-	wch       chan *goatorepo.Rpc // when non-nil, every written envelope is also queued here for the peer script
-	congested bool                // message bodies of call 1 are not accepted: such a write waits for its context and fails with its error
+	in          chan *goatorepo.Rpc
+	rerr        chan error
+	mu          vfMutex
+	out         []*goatorepo.Rpc
+	failWrite   error
+	onWrite     func(*goatorepo.Rpc)
+	wch         chan *goatorepo.Rpc // when non-nil, every written envelope is also queued here for the peer script
+	congestData byte                // when non-zero: message bodies starting with this byte are not accepted either
+	congested   bool                // message bodies of call 1 are not accepted: such a write waits for its context and fails with its error
 }
 
 func newZZConn() *zzConn {
@@ -37,7 +38,7 @@ func (c *zzConn) Read(ctx context.Context) (*goatorepo.Rpc, error) {
 }
 
 func (c *zzConn) Write(ctx context.Context, rpc *goatorepo.Rpc) error {
-	if c.congested && rpc.Id == 1 && rpc.Body != nil && rpc.Trailer == nil && rpc.Status == nil {
+	if (c.congested && rpc.Id == 1 || c.congestData != 0 && rpc.Body != nil && len(rpc.Body.Data) > 0 && rpc.Body.Data[0] == c.congestData) && rpc.Body != nil && rpc.Trailer == nil && rpc.Status == nil {
 		// a congested link (back-pressure): allowed transport behaviour, it honours its context
 		<-ctx.Done()
 		return ctx.Err()
